@@ -7,10 +7,11 @@ Property theorems only; helper lemmas live in `SynKitProofs/GraphMatcherEngineLe
 `SynKitProofs/Match.lean`.  The model (`SynKitModel/GraphMatcherEngine.lean`) follows the repaired
 code (DESIGN §6 F5, F5b, F6, F7).
 
-Not proved for all inputs (tested by the correspondence run on every generated case instead):
-soundness of the *refined* WL-1 containment filter for graphs with equally many nodes
-(`wl1_filter=True`); the theorems that need it carry the hypothesis "filter off or sizes differ" and
-the suffix `_partial`.
+Soundness of the *refined* WL-1 containment filter for graphs with equally many nodes
+(`wl1_filter=True`) is proved as `wl_refined_sound` (an isomorphism maps the neighbours of a node onto
+the neighbours of its image, `iso_neighbors_perm`).  The theorems with the suffix `_partial` are the
+earlier versions carrying the hypothesis "filter off or sizes differ"; `preCheck_sound`,
+`get_mappings_nonempty_iff_contained` and `isomorphic_iff` are the full versions without it.
 -/
 namespace SynKit.GME
 open SynKit.Match
@@ -275,14 +276,100 @@ theorem graph_isomorphism_iff (g1 g2 : LGraph) (h2 : g2.WF) :
   simp only [Bool.false_eq_true, if_false]
   exact isoDecide_iff _ g1 g2 h2
 
-/-- The one filter whose soundness is **not proved**: for graphs with equally many nodes and
-`wl1_filter=True`, an isomorphism makes the refined WL-1 histogram of the pattern contained in the
-host's.  (The proof needs "an isomorphism maps the neighbours of a node onto the neighbours of its
-image"; everything else is in place.)  The harness tests it on every generated case: each isomorphism
+/-- Soundness of the refined WL-1 filter: for graphs with equally many nodes and `wl1_filter=True`,
+an isomorphism makes the refined WL-1 histogram of the pattern contained in the host's.  Proved below
+(`wl_refined_sound`); the harness additionally tests it on every generated case: each isomorphism
 question is asked with the filter on and off. -/
 def WlRefinedSoundStatement : Prop :=
   ∀ (e : Engine) (H P : LGraph) (m : Mapping), H.WF → P.WF → IsIso e.sel H P m →
     wlContained (wl1 H e.nodeAttrs) (wl1 P e.nodeAttrs) = true
+
+/-- **Refined WL pre-filter, equal sizes, is sound**: the (label, multiset of neighbour labels)
+histogram containment never rejects isomorphic graphs.  An isomorphism maps the neighbours of a node
+bijectively onto the neighbours of its image (`iso_neighbors_perm`: pattern edges go to host edges,
+non-edges to non-edges, and every host node is an image), so the key of the image is `keyEq` to the
+key of the node. -/
+theorem wl_refined_sound : WlRefinedSoundStatement :=
+  fun e H P m hH hP hm => wlContained_of_iso e.sel e.nodeAttrs H P m rfl hH hP hm
+
+/-- **The pre-check never rejects an induced embedding**, WL filter on or off, whatever the sizes.
+Stated for `IsInduced` (what `get_mappings` / `isomorphic` look for), not `IsMono`: with equally many
+nodes an induced embedding is an isomorphism (`IsIso = IsInduced ∧ equal node counts`), for which the
+refined histogram containment holds (`wl_refined_sound`); a mere monomorphism between graphs with
+equally many nodes may miss host edges, and then the refined filter may legitimately reject (see
+`exTri` / `exPath` in the non-vacuity section).  For monomorphisms see `preCheck_sound_partial`. -/
+theorem preCheck_sound (e : Engine) (host pat : LGraph) (hH : host.WF) (hP : pat.WF) (m : Mapping)
+    (hm : IsInduced e.sel host pat m) : preCheckPure e host pat = true := by
+  by_cases hw : e.wl1Filter = false ∨ host.nodes.length ≠ pat.nodes.length
+  · exact preCheck_sound_partial e host pat hH hP m hm.1 hw
+  · obtain ⟨hw1, hw2⟩ := not_or.1 hw
+    have hlen : host.nodes.length = pat.nodes.length := Classical.not_not.1 hw2
+    have hwl : e.wl1Filter = true := by
+      cases h : e.wl1Filter with
+      | true => rfl
+      | false => exact absurd h hw1
+    obtain ⟨h1, h2⟩ := filter_sound_size e.sel host pat hH hP m hm.1
+    unfold preCheckPure preCheckWith
+    rw [if_neg (by simp only [Bool.or_eq_true, decide_eq_true_eq]; omega)]
+    simp only [hwl, Bool.not_true, Bool.false_eq_true, if_false, if_pos hlen]
+    exact wl_refined_sound e host pat m hH hP ⟨hm, hlen⟩
+
+/-- **C07, embeddings non-empty iff contained**, for `max_mappings ≠ 0`: WL filter on or off, pattern
+smaller than or as large as the host.  `get_mappings(host, pattern)` returns something exactly when an
+induced embedding of the pattern into the host exists. -/
+theorem get_mappings_nonempty_iff_contained (e : Engine) (host pat : LGraph) (hH : host.WF) (hP : pat.WF)
+    (hk : e.maxMappings ≠ some 0) :
+    getMappingsPure e host pat ≠ [] ↔ ∃ m, IsInduced e.sel host pat m := by
+  constructor
+  · intro h
+    obtain ⟨m, hm⟩ := List.exists_mem_of_ne_nil _ h
+    exact ⟨m, get_mappings_valid e host pat hP m hm⟩
+  · rintro ⟨m, hm⟩
+    have hpre := preCheck_sound e host pat hH hP m hm
+    have hne : allInduced e.sel host pat ≠ [] := List.ne_nil_of_mem ((mem_allInduced e.sel host pat hP m).2 hm)
+    unfold getMappingsPure
+    rw [hpre]
+    simp only [Bool.not_true, Bool.false_eq_true, if_false]
+    unfold mappingsCore
+    obtain ⟨x, xs, hx⟩ := List.exists_cons_of_ne_nil hne
+    split
+    · rw [hx]; simp
+    · cases hmm : e.maxMappings with
+      | none => simpa using hne
+      | some k =>
+        have : k ≠ 0 := fun h0 => hk (by rw [hmm, h0])
+        obtain ⟨k', rfl⟩ := Nat.exists_eq_succ_of_ne_zero this
+        simp [hx]
+
+/-- **C07, verdict ⇔ bijection**, WL filter on or off: `isomorphic(g1, g2)` is `True` exactly when a
+bijection preserving adjacency, the selected node and edge attributes and the hydrogen rule (`g1` as
+host) exists.  With equal sizes the pre-check runs with `g2` as its host and `g1` as its pattern; its
+refined histogram containment follows from the inverse isomorphism (hydrogen rule dropped — the
+histograms only see the selected node keys). -/
+theorem isomorphic_iff (e : Engine) (g1 g2 : LGraph) (h1 : g1.WF) (h2 : g2.WF) :
+    isomorphicPure e g1 g2 = true ↔ ∃ m, IsIso e.sel g1 g2 m := by
+  refine ⟨isomorphic_sound e g1 g2 h1 h2, ?_⟩
+  rintro ⟨m, hm⟩
+  have hlen := hm.2
+  have hinv := isIso_symm _ g1 g2 m h1 h2 (isIso_drop_hcount e.sel g1 g2 m hm)
+    (fun x _ hok => nodeOk_symm_of_noH _ rfl _ _ hok)
+  have hedges := mono_edges_le h1 hinv.1.1
+  have hwl : wlContained (wl1 g2 e.nodeAttrs) (wl1 g1 e.nodeAttrs) = true :=
+    wlContained_of_iso { e.sel with hcountRule := false } e.nodeAttrs g2 g1 _ rfl h2 h1 hinv
+  unfold isomorphicPure
+  rw [if_neg (by omega)]
+  simp only
+  have hpre : preCheckPure e g2 g1 = true := by
+    unfold preCheckPure preCheckWith
+    rw [if_neg (by simp only [Bool.or_eq_true, decide_eq_true_eq]; omega)]
+    cases e.wl1Filter with
+    | false => simp
+    | true => simp only [Bool.not_true, Bool.false_eq_true, if_false, if_pos hlen.symm]; exact hwl
+  rw [hpre]
+  simp only [Bool.not_true, Bool.false_eq_true, if_false]
+  unfold isoCore
+  rw [if_pos hlen]
+  exact (isoDecide_iff e.sel g1 g2 h2).2 ⟨m, hm⟩
 
 /-! ### Non-vacuity -/
 section Examples
@@ -303,6 +390,23 @@ example : run [exHost, exPat] []
     = [.verdict true, .verdict true] := by decide
 /-- F7: the filtered boolean test on graphs whose node ids are unrelated. -/
 example : subgraphIsomorphism { useFilter := true } exPat exHost = true := by decide
+/-- Refined WL filter on, equal sizes, unrelated node ids and orders: the pre-check passes, the verdict
+is `True` and an embedding is returned (`wl_refined_sound`, `preCheck_sound`, `isomorphic_iff`,
+`get_mappings_nonempty_iff_contained` are not vacuous). -/
+def exHost2 : LGraph := { nodes := [(5, cN "O" 0), (6, cN "C" 0), (7, cN "C" 0)],
+                          edges := [(6, 5, [("order", .num 2)]), (7, 6, [("order", .num 2)])] }
+example : exHost2.WF := by decide
+example : preCheckPure exEng exHost exHost2 = true ∧ isomorphicPure exEng exHost exHost2 = true ∧
+    getMappingsPure exEng exHost exHost2 = [[(5, 2), (6, 1), (7, 0)]] := by decide
+/-- Why `preCheck_sound` is about induced embeddings: a path on three carbons is monomorphically
+contained in a triangle with equally many nodes, and the refined filter rejects the pair. -/
+def exTri : LGraph := { nodes := [(0, cN "C" 0), (1, cN "C" 0), (2, cN "C" 0)],
+                        edges := [(0, 1, [("order", .num 2)]), (1, 2, [("order", .num 2)]), (0, 2, [("order", .num 2)])] }
+def exPath : LGraph := { nodes := [(0, cN "C" 0), (1, cN "C" 0), (2, cN "C" 0)],
+                         edges := [(0, 1, [("order", .num 2)]), (1, 2, [("order", .num 2)])] }
+example : exTri.WF ∧ exPath.WF := by decide
+example : allMonos exEng.sel exTri exPath ≠ [] ∧ allInduced exEng.sel exTri exPath = [] ∧
+    preCheckPure exEng exTri exPath = false := by decide
 end Examples
 
 end SynKit.GME
